@@ -3,4 +3,6 @@ import MenelausVerif.Base.Drift
 import MenelausVerif.Base.Arith
 import MenelausVerif.Model.Election
 import MenelausVerif.Model.PageHinkley
+import MenelausVerif.Model.Lifecycle
 import MenelausVerif.Props.C13
+import MenelausVerif.Props.C01
